@@ -321,6 +321,13 @@ def check_footer(ctx, ht, rule, select=lambda f: True):
         else:
             ctx.ok(rule, f, label, 'bytes per array = reader stride %s' % {k: repr(v) for k, v in forms.items()},
                    sample={'written': {str(k): repr(v) for k, v in forms.items()}})
+        verdict, text = FT.footer_order(P, f, call)
+        if verdict == 'ok':
+            ctx.ok(rule, f, 'order: ' + label, text)
+        elif verdict == 'bad':
+            ctx.fail(rule, f, enclosing_stmt(call), 'footer order: ' + text, line=call.lineno, key_extra='order')
+        elif verdict == 'unknown':
+            raise AnalysisError('footer order in %s: %s' % (f.qualname, text))
 
 
 def _in(node, body):
